@@ -163,6 +163,10 @@ End Arith.
 Lemma seg_size_mdmf maxseg k a b : seg_size_of false maxseg k a = seg_size_of false maxseg k b.
 Proof. reflexivity. Qed.
 
+(* keep implications and disjunctions out of lia's sight until they are applied *)
+Definition hide (P : Prop) : Prop := P.
+Ltac hide_hyp H := let T := type of H in change (hide T) in H.
+
 Lemma tu_size_init d o sg a b : tu_size (tu_init d o sg a b) = o + length d.
 Proof. reflexivity. Qed.
 
@@ -227,6 +231,7 @@ Proof.
   assert (Hnum'def : num' = div_ceil N' seg) by reflexivity.
   (* from here on N', num', end1, E are plain numbers constrained by the facts above *)
   clearbody N' num' end1 E.
+  hide_hyp E3. hide_hyp E4. hide_hyp F3. hide_hyp F4. hide_hyp F5. hide_hyp U. hide_hyp Hcase.
   (* unfold the operation *)
   unfold update_in_place. rewrite Hlen. fold seg L.
   replace (off <=? n) with true by (symmetry; apply Nat.leb_le; exact Hoff). cbn [negb].
@@ -281,8 +286,8 @@ Proof.
       - apply Nat.eqb_eq in Q.
         destruct (st + j + 1 =? num') eqn:Q'.
         + apply Nat.eqb_eq in Q'. rewrite Htail'.
-          rewrite F4 by lia. f_equal. f_equal. lia.
-        + apply Nat.eqb_neq in Q'. rewrite F3 by lia. lia.
+          rewrite (F4 ltac:(lia)). f_equal. f_equal. lia.
+        + apply Nat.eqb_neq in Q'. rewrite (F3 ltac:(lia)). lia.
       - apply Nat.eqb_neq in Q.
         destruct (st + j + 1 =? num') eqn:Q'; [apply Nat.eqb_eq in Q'; lia|reflexivity]. }
     specialize (PT Q1 Q2 Q3 Q4 Q5 (end1 - st) 0).
